@@ -413,6 +413,10 @@ def run(pid, tier):
         for f in ("gen", "src", "lock"):
             for reg in REGIONS:
                 systematic += [{"a": "tamper", "file": f, "region": reg}, {"a": "restore", "file": f, "region": reg}]
+        # `generate` must repair whatever happened to its outputs (same source): damaged generated file, damaged lockfile
+        systematic += [{"a": "tamper", "file": "gen", "region": "mid"}, {"a": "generate"},
+                       {"a": "tamper", "file": "lock", "region": "first"}, {"a": "generate"},
+                       {"a": "tamper", "file": "gen", "region": "append"}, {"a": "tamper", "file": "lock", "region": "mid"}, {"a": "generate"}]
         systematic += [{"a": "edit_source"}, {"a": "generate"}]
         sizes = ["small", "medium", "large"]
         jobs = [(i, [{"a": "generate"}] + h, sizes[i % 3]) for i, h in enumerate(behs)]
